@@ -2,23 +2,183 @@
 
 KANI_STUBS = [
     "arc-swap replaced by /verif/shims/arc-swap (sequential ArcSwapOption) for the Kani build only",
-    "Kani models f64 % f64 nondeterministically: harnesses do not assert through it (E2 decides those)",
+    "Kani models f64 % f64 nondeterministically: harnesses marked [stub_deg_mod] replace rsass's private deg_mod by "
+    "/verif/kani/src/stubs.rs::deg_mod_exact (exact piecewise definition on [-360,720], arbitrary value in [0,360) for "
+    "other finite inputs); E2 proves the real deg_mod bit-equal to it from the MIR with cvc5's exact fp.rem (check C31)",
 ]
 TRUST = [
     "rustc, Kani 0.68 translation, CBMC 6.11 bit-precise integer/IEEE-754 model, CaDiCaL",
     "the harness bodies and reference models in /verif/kani/src (reviewed by hand)",
+    "CBMC's 'NaN on ...' / float-overflow checks are not Rust failures and are ignored",
+]
+
+F_UNIT = [
+    ("rsass::value::Unit::dimension", "value/unit.rs", r"pub fn dimension\(&self\) -> Dimension"),
+    ("rsass::value::Unit::scale_to", "value/unit.rs", r"pub fn scale_to\(&self, other: &Self\)"),
+    ("rsass::value::Unit::scale_factor", "value/unit.rs", r"pub\(crate\) fn scale_factor"),
+    ("rsass::value::UnitSet::scale_to", "value/unitset.rs", r"pub fn scale_to\(&self, other: &Self\)"),
+    ("rsass::value::UnitSet::scale_to_unit", "value/unitset.rs", r"pub fn scale_to_unit"),
+]
+F_NUM = [
+    ("rsass::value::Number::eq", "value/number.rs", r"impl PartialEq for Number"),
+    ("rsass::value::Number::partial_cmp", "value/number.rs", r"impl PartialOrd for Number"),
+    ("rsass::value::Numeric::eq", "value/numeric.rs", r"impl PartialEq for Numeric"),
+    ("rsass::value::Numeric::partial_cmp", "value/numeric.rs", r"impl PartialOrd for Numeric"),
+    ("rsass::value::Numeric::as_unitset", "value/numeric.rs", r"pub fn as_unitset"),
+]
+F_COLOR = [
+    ("rsass::value::Rgba::new", "value/colors/rgba.rs", r"pub fn new\(r: f64"),
+    ("rsass::value::colors::rgba::cap", "value/colors/rgba.rs", r"^fn cap\("),
+    ("rsass::value::colors::rgba::cmp_chan", "value/colors/rgba.rs", r"^fn cmp_chan\("),
+    ("rsass::value::Rgba::cmp", "value/colors/rgba.rs", r"impl Ord for Rgba"),
+    ("rsass::value::Hsla::new", "value/colors/hsla.rs", r"pub fn new\("),
+    ("rsass::value::colors::hsla::deg_mod", "value/colors/hsla.rs", r"^fn deg_mod\("),
+    ("rsass::value::Hwba::new", "value/colors/hwba.rs", r"pub fn new\(hue: f64"),
+    ("<Hsla as From<&Rgba>>::from", "value/colors/convert.rs", r"impl From<&Rgba> for Hsla"),
+    ("<Rgba as From<&Hsla>>::from", "value/colors/convert.rs", r"impl From<&Hsla> for Rgba"),
+    ("<Hsla as From<&Hwba>>::from", "value/colors/convert.rs", r"impl From<&Hwba> for Hsla"),
+    ("<Hwba as From<&Rgba>>::from", "value/colors/convert.rs", r"impl From<&Rgba> for Hwba"),
+    ("rsass::value::colors::convert::max_min_largest", "value/colors/convert.rs", r"^fn max_min_largest"),
+    ("rsass::value::Color::cmp", "value/colors/mod.rs", r"impl Ord for Color"),
 ]
 
 PROPS = {
+    "C01": {
+        "engines": ["E1 Kani/CBMC", "E2 mirsym+cvc5/z3"],
+        "e2": True,
+        "functions": [
+            ("rsass::output::Format::get_indent", "output/format.rs", r"pub fn get_indent"),
+            ("rsass::value::range::ValueRange::new", "value/range.rs", r"pub fn new\(from: i64"),
+            ("<ValueRange as Iterator>::next", "value/range.rs", r"fn next\(&mut self\)"),
+            ("rsass::value::Number::into_integer", "value/number.rs", r"pub fn into_integer"),
+            ("<&Number as Rem>::rem", "value/number.rs", r"impl Rem for &Number"),
+        ] + F_COLOR + F_NUM,
+        "bounds": {
+            "quick": "get_indent: all len <= 4096 x 3 styles; ValueRange: all i64 from/to, 3 next(); Number/Numeric kernels: all f64 "
+                     "(incl. NaN, inf); colour conversions/rotate/set_alpha: all f64 channels; Color::cmp: all 5^8 combinations of "
+                     "special channel values {NaN, inf, -1, 0.5, 300} for hsl/hsl and hsl/hwb; Rgba::cmp: all f64",
+        },
+        "outside": "every panic site in the parser (Span::take asserts, from_utf8().unwrap()), selector algebra (resolve_ref ... unwrap()), "
+                   "scope locks, stack depth, error rendering (SourcePos::show), CssString::unquote/Display (char-by-char String building "
+                   "is out of CBMC's reach: OOM at 18 GB on 3-byte strings), core::fmt",
+        "stubs": KANI_STUBS,
+        "assumptions": TRUST,
+    },
+    "C11": {
+        "engines": ["E1 Kani/CBMC"],
+        "functions": F_UNIT + F_NUM + [("rsass::value::UnitSet::is_compatible", "value/unitset.rs", r"pub fn is_compatible")],
+        "bounds": {
+            "quick": "Unit::scale_to: all 31x31 ordered unit pairs symbolically (28 named units, unitless, 2 unknown), ratios within 1e-12 "
+                     "of CSS Values 4; Numeric comparison: ALL finite f64 magnitudes for one representative ordered pair in the time, "
+                     "frequency and resolution groups (lengths/angles: thorough), for unitless-vs-unit over all 28 named units, and for "
+                     "10 representative inconvertible pairs; every ordered in-group pair at magnitude 1 (concrete inputs)",
+        },
+        "outside": "the three-way unit selection inside Operator::eval for + and - (consumes css::Value: out of CBMC's reach) and the "
+                   "exponent bookkeeping of UnitSet Mul/Div/simplify, math.div, compound units; an oracle that multiplies symbolic "
+                   "magnitudes (multiplier equivalence does not finish in SAT: the ratio itself is decided on the table, its use on "
+                   "concrete magnitudes)",
+        "stubs": KANI_STUBS,
+        "assumptions": TRUST + ["oracle: CSS Values and Units 4 ratio table in /verif/kani/src/oracle.rs"],
+    },
     "C12": {
         "engines": ["E1 Kani/CBMC"],
-        "functions": [
-            ("rsass::value::Number::eq", "value/number.rs", r"impl PartialEq for Number"),
-            ("rsass::value::Number::partial_cmp", "value/number.rs", r"impl PartialOrd for Number"),
-            ("rsass::value::Numeric::partial_cmp", "value/numeric.rs", r"impl PartialOrd for Numeric"),
+        "functions": F_NUM + [
+            ("rsass::value::Rgba::cmp", "value/colors/rgba.rs", r"impl Ord for Rgba"),
+            ("rsass::value::colors::rgba::cmp_chan", "value/colors/rgba.rs", r"^fn cmp_chan\("),
+            ("rsass::value::Color::cmp", "value/colors/mod.rs", r"impl Ord for Color"),
+            ("rsass::value::Color::eq", "value/colors/mod.rs", r"impl PartialEq for Color"),
         ],
-        "bounds": {"quick": "all non-NaN f64 pairs", "thorough": "all non-NaN f64 pairs"},
-        "outside": "lists/maps of depth > 1, functions, calculations; NaN operands",
+        "bounds": {
+            "quick": "Number/Numeric: ALL non-NaN f64 pairs (same unit, unitless vs unit); Rgba colours: all non-NaN channels, two "
+                     "channels differing freely (all four: thorough), every notation flag",
+        },
+        "outside": "lists/maps of depth > 1 (structural recursion over the above), functions, calculations, NaN operands; CssString "
+                   "equality across quote kinds (unquote rebuilds Strings char by char: out of reach); hsl/hwb carriers (their "
+                   "equality is Rgba equality of the converted colours; the conversions are covered under C31)",
+        "stubs": KANI_STUBS,
+        "assumptions": TRUST,
+    },
+    "C13": {
+        "engines": ["E1 Kani/CBMC"],
+        "functions": [
+            ("rsass::ordermap::OrderMap::insert", "ordermap.rs", r"pub fn insert"),
+            ("rsass::ordermap::OrderMap::get", "ordermap.rs", r"pub fn get\(&self"),
+            ("rsass::ordermap::OrderMap::get_mut", "ordermap.rs", r"pub fn get_mut"),
+            ("rsass::ordermap::OrderMap::remove", "ordermap.rs", r"pub fn remove"),
+            ("rsass::ordermap::OrderMap::contains_key", "ordermap.rs", r"pub fn contains_key"),
+            ("<OrderMap as PartialEq>::eq", "ordermap.rs", r"impl<K: PartialEq, V: PartialEq> PartialEq for OrderMap"),
+        ],
+        "bounds": {
+            "quick": "instantiation OrderMap<Key(u8) with == mod 4, u8>; from an ARBITRARY valid map of exactly 0,1,2,3 entries (symbolic "
+                     "keys/values, pairwise non-== keys): one insert / remove / lookup with arbitrary arguments; equality of two "
+                     "arbitrary maps up to 2x2; merge loop 1+2 and 2+1 entries",
+            "thorough": "as quick plus insert into 4, lookup in 5, equality 3x3",
+        },
+        "outside": "the map.* closures' argument plumbing, nested-key variants, css::Value as the key type (its == is covered by C12), "
+                   "maps with more than 3-5 entries (one inductive step from an arbitrary valid state covers longer histories only "
+                   "up to the stated sizes)",
+        "stubs": KANI_STUBS,
+        "assumptions": TRUST + ["generic code is verified for one instantiation: K = Key(u8) with coarse ==, V = u8"],
+    },
+    "C14": {
+        "engines": ["E1 Kani/CBMC", "E2 mirsym+cvc5/z3"],
+        "e2": True,
+        "functions": [
+            ("rsass::css::Value::is_true", "css/value.rs", r"pub fn is_true"),
+            ("rsass::sass::Value::is_true", "sass/value.rs", r"pub fn is_true"),
+        ],
+        "bounds": {"quick": "one representative of every css::Value / sass::Value kind (18 / 13), numeric payload any f64"},
+        "outside": "the parser deciding what is an operand",
+        "stubs": KANI_STUBS,
+        "assumptions": TRUST,
+    },
+    "C17": {
+        "engines": ["E1 Kani/CBMC"],
+        "functions": [
+            ("rsass::value::range::ValueRange::new", "value/range.rs", r"pub fn new\(from: i64"),
+            ("<ValueRange as Iterator>::next", "value/range.rs", r"fn next\(&mut self\)"),
+        ],
+        "bounds": {
+            "quick": "all from,to in [-6,6] (the property's range), both through/to, with a unit; unitless on spans <= 4; |to-from| <= 3 "
+                     "anywhere in i64 including the limits (iteration count)",
+        },
+        "outside": "@if/@each/@while dispatch in transform.rs, destructuring, SrcRange::evaluate's unit conversion of `to` (evaluator)",
+        "stubs": KANI_STUBS,
+        "assumptions": TRUST,
+    },
+    "C31": {
+        "engines": ["E1 Kani/CBMC", "E2 mirsym+cvc5"],
+        "e2": True,
+        "functions": F_COLOR,
+        "bounds": {
+            "quick": "Rgba::new: ALL f64; Hsla::new: all finite hue, all non-NaN s>=0,l,alpha; Hwba::new: whiteness/blackness multiples "
+                     "of 1/16 in [-1,4]; rgb->hsl and rgb->hwb channel formulas and ranges: ALL 2^24 byte colours; round trips "
+                     "rgb->hsl->rgb on the 6-level lattice (216 colours), rgb->hwb->rgb and notation independence on the 4-level "
+                     "lattice (64 colours)",
+            "thorough": "as quick, with the 6-level lattice for all round trips",
+        },
+        "outside": "argument parsing/percent handling in the rgb()/hsl()/hwb() closures, Channels, named-colour table lookup (BTreeMap in a "
+                   "LazyLock); round trips off the lattice (CBMC needs about a second per colour to prove a float round trip)",
+        "stubs": KANI_STUBS,
+        "assumptions": TRUST,
+    },
+    "C32": {
+        "engines": ["E1 Kani/CBMC", "E2 mirsym+cvc5"],
+        "e2": True,
+        "functions": [
+            ("rsass::value::Rgba::invert", "value/colors/rgba.rs", r"pub\(crate\) fn invert"),
+            ("rsass::value::Hsla::invert", "value/colors/hsla.rs", r"pub\(crate\) fn invert"),
+            ("rsass::value::Color::invert", "value/colors/mod.rs", r"pub\(crate\) fn invert"),
+            ("rsass::value::Color::rotate_hue", "value/colors/mod.rs", r"pub fn rotate_hue"),
+            ("rsass::value::Color::set_alpha", "value/colors/mod.rs", r"pub fn set_alpha\(&mut self"),
+            ("rsass::value::Hsla::new", "value/colors/hsla.rs", r"pub fn new\("),
+        ],
+        "bounds": {
+            "quick": "all in-range f64 channels (rgba invert, hsl invert, hue rotation hsl/hwb, set_alpha with any amount in [0,1]); "
+                     "Color::invert weights 0 and 1 on the short-hex lattice + ties",
+        },
+        "outside": "mix, color.adjust/scale/change (named-argument plumbing over CallArgs), everything requiring css::Value; "
+                   "adjust-hue on an rgb carrier for all 2^24 colours (no verdict in 900 s)",
         "stubs": KANI_STUBS,
         "assumptions": TRUST,
     },
